@@ -6,10 +6,15 @@ from vlib.props.c09 import mag, MAG_PATTERNS, nwords
 GROUP = "bits"
 LEAN_PROPS = "Dashu.Props.C05"
 LEAN_AUDIT = "Dashu.Audit.C05"
+# Tie A, typed translator: float/src/cmp.rs and rational/src/cmp.rs regenerated and proved equal to `Model/Int/Cmp.lean`
+USES_GEN = True
+GEN_PROPS = ["Dashu.Props.GenFloatCmp", "Dashu.Props.GenRatCmp", "Dashu.Props.GenIntOps"]
+GEN_AUDIT = ["Dashu.Audit.GenFloatCmp", "Dashu.Audit.GenRatCmp", "Dashu.Audit.GenIntOps"]
 JOBS = 12
 READY = True
 
 W = 64
+M = (1 << 64) - 1
 N_UROUTES = 34
 N_IROUTES = 22
 
@@ -47,6 +52,8 @@ def fl_operand(rng, base, tier):
     s = rng.randrange(base ** (nd - 1), base ** nd)
     if rng.random() < 0.3:
         s *= base ** rng.randrange(1, 4)          # trailing zero digits: normalize must strip them
+    if rng.random() < 0.35:
+        s *= 2 ** rng.randrange(1, 8)             # trailing zero BITS that are not whole digits (bases 16, 10)
     if rng.random() < 0.5:
         s = -s
     e = rng.choice([0, 0, 1, -1, 5, -5, 20, -20, 100, -100, rng.randrange(-60, 60)])
@@ -92,14 +99,107 @@ def generate(rng, tier):
             yield Case("c.cmp", [hx(sa), hx(sb), dec(ra), dec(rb)])
         else:
             yield Case("cu.cmp", [hx(a), hx(b), dec(ra), dec(rb)])
+    # ---- histories: random programs over a register file (the instruction set of the history theorem);
+    #      values are tracked here only to keep sizes bounded and to aim shifts/bit positions at the
+    #      inline/heap boundary; every register is printed and all pairs are cross-checked in the harness
+    for _ in range(250 if quick else 8000):
+        regs = []
+        prog = []
+
+        def emit(tok, val):
+            prog.append(tok); regs.append(val)
+        for _ in range(rng.randrange(2, 4)):
+            r = rng.random()
+            v = boundary(rng) if r < 0.4 else nat(rng, tier, rng.choice([0, 1, 2, 3, 4]))
+            if rng.random() < 0.4:
+                v = -v
+            k = rng.random()
+            if k < 0.4:
+                emit("const:" + hx(v), v)
+            elif k < 0.7:
+                ws = []
+                a = abs(v)
+                while a:
+                    ws.append("%x" % (a & M)); a >>= 64
+                ws += ["0"] * rng.randrange(0, 3)               # leading zero words for from_buffer to trim
+                emit("words:%d:%s" % (1 if v < 0 else 0, ".".join(ws)), v)
+            elif k < 0.85 and abs(v) < (1 << 127):
+                b = rng.choice([128]) if abs(v) >= (1 << 63) else rng.choice([64, 128])
+                emit("fs:%d:%s" % (b, hx(v)), v)
+            else:
+                emit("fu:%x" % (abs(v) % (1 << 128)), abs(v) % (1 << 128))
+        n_ops = rng.randrange(5, 14)
+        for _ in range(n_ops):
+            i = rng.randrange(len(regs)); j = rng.randrange(len(regs))
+            a, b = regs[i], regs[j]
+            op = rng.choice(["add", "sub", "sub", "mul", "div", "rem", "dive", "reme", "and", "or", "xor", "not", "neg",
+                             "abs", "clone", "sqr", "pow", "shl", "shr", "shr", "setbit", "clearbit", "clearhigh",
+                             "splitlo", "splithi", "nextpow2", "ones"])
+            big = max(abs(a), abs(b)).bit_length()
+            sh = rng.choice([0, 1, 63, 64, 65, 127, 128, 129, 192, max(big - 1, 0), big, big + 1, max(big - 64, 0), max(big - 128, 0)])
+            if op in ("mul", "sqr") and big > 1500:
+                op = "rem"
+            if op == "pow" and big > 300:
+                op = "neg"
+            if op == "shl" and big + sh > 3000:
+                op = "shr"
+            if op == "add":
+                emit("add:%d:%d:%d" % (i, j, rng.randrange(3)), a + b)
+            elif op == "sub":
+                emit("sub:%d:%d:%d" % (i, j, rng.randrange(3)), a - b)
+            elif op == "mul":
+                emit("mul:%d:%d" % (i, j), a * b)
+            elif op in ("div", "rem", "dive", "reme"):
+                if b == 0:
+                    prog.append("%s:%d:%d" % (op, i, j)); break          # DivideByZero ends the history
+                q = abs(a) // abs(b); q = q if (a < 0) == (b < 0) else -q
+                val = {"div": q, "rem": a - b * q, "dive": (a - a % abs(b)) // b, "reme": a % abs(b)}[op]
+                emit("%s:%d:%d" % (op, i, j), val)
+            elif op in ("and", "or", "xor"):
+                emit("%s:%d:%d" % (op, i, j), {"and": a & b, "or": a | b, "xor": a ^ b}[op])
+            elif op == "not":
+                emit("not:%d" % i, ~a)
+            elif op == "neg":
+                emit("neg:%d" % i, -a)
+            elif op == "abs":
+                emit("abs:%d" % i, abs(a))
+            elif op == "clone":
+                emit("clone:%d" % i, a)
+            elif op == "sqr":
+                emit("sqr:%d" % i, a * a)
+            elif op == "pow":
+                e = rng.choice([0, 1, 2, 3, 4])
+                emit("pow:%d:%d" % (i, e), a ** e)
+            elif op == "shl":
+                emit("shl:%d:%d" % (i, sh), a << sh)
+            elif op == "shr":
+                emit("shr:%d:%d:%d" % (i, sh, rng.randrange(2)), a >> sh)
+            elif op == "ones":
+                n = rng.choice([0, 63, 64, 127, 128, 129, 192])
+                emit("ones:%d" % n, (1 << n) - 1)
+            else:
+                if a < 0:
+                    if rng.random() < 0.1:
+                        prog.append("%s:%d%s" % (op, i, "" if op == "nextpow2" else ":%d" % sh)); break   # `bad`
+                    continue
+                if op == "setbit":
+                    emit("setbit:%d:%d" % (i, sh), a | (1 << sh))
+                elif op == "clearbit":
+                    emit("clearbit:%d:%d" % (i, sh), a & ~(1 << sh))
+                elif op in ("clearhigh", "splitlo"):
+                    emit("%s:%d:%d" % (op, i, sh), a & ((1 << sh) - 1))
+                elif op == "splithi":
+                    emit("splithi:%d:%d" % (i, sh), a >> sh)
+                else:
+                    emit("nextpow2:%d" % i, 1 if a <= 1 else 1 << (a - 1).bit_length())
+        yield Case("c.hist", [",".join(prog)])
     # ---- ones(n)
     for n in sorted(set([0, 1, 63, 64, 65, 127, 128, 129, 191, 192, 193, 255, 256, 257]
                         + [rng.randrange(0, 600) for _ in range(20 if quick else 300)])):
         yield Case("c.ones", [dec(n)])
-    # ---- hash feed
-    for _ in range(150 if quick else 4000):
-        x = nat(rng, tier)
-        yield Case("c.hashfeed", [hx(-x if rng.random() < 0.5 else x)])
+    # (the exact byte stream `c.hashfeed` is NOT generated: the property promises that the hash is a
+    #  function of the value, not a particular feed — equality of feeds between routes is checked by
+    #  c.routes / ci.routes / c.cmp / q.routes; the op remains available for replays)
     # ---- floats of the same base, any precisions (digits <= precision by construction)
     for _ in range(900 if quick else 30000):
         base = rng.choice([2, 10, 10, 16])
@@ -146,6 +246,28 @@ def generate(rng, tier):
         if rng.random() < 0.3:
             s, sb = -s, -sb
         yield Case("f.basecmp", [hx(s), dec(ea), dec(pa), dec(P10[pa]), hx(sb), dec(eb)])
+    # ---- results that keep the spare digit (a - b of equal signs: p+1 significant digits, flagged Exact)
+    #      compared with values at the exponent thresholds of the precision shortcut (case 4) and next to r
+    for _ in range(300 if quick else 9000):
+        B = rng.choice([2, 10, 10, 16])
+        p = rng.choice([1, 2, 3, 4, 6, 9])
+        sa = rng.randrange(B ** (p - 1), B ** p)
+        sb = rng.randrange(1, B)
+        D = sa * B - sb                                    # exact difference of sa*B^1 and sb*B^0
+        sign = -1 if rng.random() < 0.4 else 1
+        dD = 0
+        t = D
+        while t:
+            t //= B; dD += 1
+        r = rng.random()
+        if r < 0.45:
+            sc, ec = rng.choice([1, 1, B - 1, rng.randrange(1, B)]), rng.choice([p - 1, p, p, p + 1, dD - 1, dD])
+        elif r < 0.75:
+            sc, ec = D + rng.choice([-1, 0, 1]), 0
+        else:
+            sc, ec = rng.randrange(1, B ** rng.randrange(1, p + 2)), rng.randrange(0, p + 3)
+        yield Case("f.subcmp", [B, hx(sign * sa), dec(1), hx(sign * sb), dec(0), dec(p), hx(sign * D), dec(0),
+                                hx(sign * sc), dec(ec), dec(0)])
     # ---- invariant digits <= precision + 1 after single operations and chains (incl. operands that are
     #      themselves p+1-digit results: addsub / subsub / submul)
     for _ in range(600 if quick else 20000):
@@ -224,6 +346,10 @@ def generate(rng, tier):
             # numerators/denominators whose bit lengths differ by exactly the shortcut thresholds
             sh = rng.choice([1, 2, 3])
             n2, d2 = (n1 << sh) + rng.choice([0, 1]), d1 + rng.choice([0, 1])
+        elif r < 0.68:
+            n2, d2 = n1, d1 + rng.choice([1, 2, d1])          # same numerator, different denominator
+        elif r < 0.76:
+            n2, d2 = n1 + rng.choice([1, 2, n1]), d1          # same denominator, different numerator
         else:
             n2, d2 = frac()
         s1 = -1 if rng.random() < 0.4 else 1
@@ -233,6 +359,8 @@ def generate(rng, tier):
 
 def nontrivial(c):
     import re
+    if c.op == "c.hist":
+        return len(c.args[0]) > 60
     if c.op in ("c.routes", "ci.routes", "c.cmp", "cu.cmp", "c.hashfeed"):
         return any(re.fullmatch(r"-?[0-9a-f]+", a) and len(a.lstrip("-")) > 16 for a in c.args)
     return True
@@ -246,7 +374,7 @@ RULE = ("integers: values of exactly 0..6,9 (thorough ..100) words in the C09 bi
         "require through the hook `repr_info` that every result is inline iff <= 2 words with no leading zero word (and zero is +0), and "
         "that all results are pairwise ==, cmp Equal, partial_cmp Equal and feed the same bytes to a recording Hasher; `c.cmp/cu.cmp`: "
         "pairs (equal, +-1, +-2^64, +-2^128, one flipped bit in any word, independent) x all sign pairs, each operand produced by a random "
-        "route; `c.ones`: n at all boundaries; `c.hashfeed`: the exact byte stream. floats: same-base pairs (bases 2, 10, 16; different "
+        "route; `c.hist`: random programs (5-14 instructions of the history theorem's instruction set, operands aimed at the inline/heap boundary, results fed back; also programs ending in DivideByZero) — every register printed, all pairs cross-checked for ==/cmp/hash vs value; `c.ones`: n at all boundaries; `c.hashfeed`: the exact byte stream. floats: same-base pairs (bases 2, 10, 16; different "
         "rounding modes; precisions from digits to digits+50; infinities, zeros, trailing-zero significands, exponent gaps at the "
         "thresholds of the precision/digits shortcuts); `f.basecmp`: binary floats converted by with_base::<10>() (exact integers, "
         "possibly with more digits than their new precision) against decimal neighbours; rationals: Relaxed as given (non-reduced "
@@ -254,7 +382,7 @@ RULE = ("integers: values of exactly 0..6,9 (thorough ..100) words in the C09 bi
         "one rational built by 16 / 15 routes (trailing-zero significands, precision changes incl. unlimited, +0, *1, shifts, "
         "parsing, integer conversion, rounding-mode change; non-reduced and signed parts, arithmetic round trips, parsing, "
         "Relaxed->canonicalize) whose representations must be the normalised / reduced one and pairwise ==, cmp Equal (and, for "
-        "RBig, hash-identical). `f.viabase`: floats of base 16/8/4/9/27/100 with significands 2^j*odd, odd, multiples of the base, zero, converted exactly to the root base (with_base_and_precision, with_base, to_binary) — normalised, ==, cmp Equal to from_parts in the target base; every float the harness receives back is checked for normalisation (`!unnormalized` marker). Non-trivial := an integer operand above one word, "
+        "RBig, hash-identical). `f.subcmp`: differences of equal-signed operands that keep the spare (p+1-st) digit, compared with values at the exponent thresholds of the precision shortcut and with neighbours; `f.viabase`: floats of base 16/8/4/9/27/100 with significands 2^j*odd, odd, multiples of the base, zero, converted exactly to the root base (with_base_and_precision, with_base, to_binary) — normalised, ==, cmp Equal to from_parts in the target base; every float the harness receives back is checked for normalisation (`!unnormalized` marker). Non-trivial := an integer operand above one word, "
         "every float/rational case; distinct := distinct (op,args) lines.")
 
 REFINED = [
@@ -266,14 +394,16 @@ REFINED = [
     "producers of canonical form: from_buffer, ofNat, ones, & | ^ and_not, add_one/sub_one, shl, shr, clear_high_bits, "
     "split_bits, IBig sign tables, Not, IBig shl",
     "float: repr_cmp_same_base (all 6 cases, any digit estimator that is an upper bound), Repr::normalize, PartialEq for FBig",
-    "rational: repr_cmp, repr_eq (bit-length filters + cross multiplication), structural RBig ==",
+    "rational: repr_cmp, repr_eq (bit-length filters + cross multiplication), structural RBig ==, Hash for RBig (injective feed)",
+    "float producers return the canonical (normalised) representation and at most p+1 digits (repr_round, add, sub, mul, sqr, cubic, repr_div)",
 ]
 FRONTIER = [
-    "history theorem covers: constructors/decoders entering through from_buffer/from_dword (const), clone, neg, abs, !, sqr, pow, "
-    "<<, >>, + - * / %, & | ^, ones (per-op Canon facts imported from Proofs/Int/{Repr,Ops,Pow,Div,Bits}); NOT in the instruction "
-    "set (covered by the multi-route correspondence through the repr_info hook and by their owning properties): the text/byte "
-    "decoders as word-level producers (C07 proves them at value level), raw from_buffer/clone_from on the ledger model (C17), "
-    "gcd/roots (C12), Euclidean division forms, conversions from primitives/floats (C06)",
+    "history theorem covers: const, fromWords (ANY raw word buffer -> from_buffer + sign: from_words, byte/chunk decoders, parsers, "
+    "from_parts), fromUnsigned/fromSigned (From<uN>/From<iN>), clone, neg, abs, !, sqr, pow, <<, >>, + - * / %, div_euclid, rem_euclid, & | ^, ones, set_bit, "
+    "clear_bit, clear_high_bits, split_bits, next_power_of_two; NOT in the instruction set (covered by the multi-route "
+    "correspondence through the repr_info hook and by the WF/Canon theorems of their owning properties): ConstDivisor division "
+    "(C02 proves WF), gcd/gcd_ext/sqrt/nth_root (C12), TryFrom<f32/f64> (C06), from_static_words (macro-only, "
+    "asserted precondition, C20), modular residues (C13), clone_from on the ledger model (C17)",
     "float producers: the invariant the comparison needs is digits <= precision+1 (theorem float_cmp); it is proved for the "
     "modelled Context operations repr_round/with_precision, add, sub, mul, sqr, cubic, repr_div (float_results_fit, using "
     "builder-float's Closing lemmas) and checked on the real code by `f.fits` (single ops and chains); NOT modelled: exp/ln/powi, "
@@ -301,7 +431,7 @@ THEOREMS = ["Dashu.Props.C05." + n for n in [
     "cmp_wrong_without_canon", "producers_canonical", "signed_producers_canonical", "float_cmp",
     "float_cmp_needs_precision_bound", "float_normalize", "float_eq_iff_cmp_equal", "ratio_cmp", "relaxed_eq", "rbig_eq",
     "ratio_cmp_equal_iff_eq", "history_canonical", "history_values", "history_eq_cmp_hash",
-    "float_results_fit", "float_cmp_of_results", "float_spare_digit_occurs"]]
+    "float_results_fit", "float_cmp_of_results", "float_spare_digit_occurs", "rbig_hash_follows_value", "float_results_canonical"]]
 
 LEVEL_TEXT = ("Machine-checked Lean 4 theorems that (integers, every word size and length) comparison of canonical values is the order "
               "of the values and the canonical representation of a value is unique — so ==, the sequence fed to a Hasher and "
